@@ -66,6 +66,9 @@ class ANOVA:
         return f2_arr
 
     def build(self, I_trn, y_trn):
+        self.__dict__.pop('_f1_arr', None)
+        self.__dict__.pop('_f2_arr', None)
+
         I_trn = np.asanyarray(I_trn)
         self.dtype = I_trn.dtype
 
